@@ -265,6 +265,30 @@ def exhaustive_icmp(ctx, psets):
     return out
 
 
+def gen_ka(rng):
+    """keepalive (k:SECS, extended model): the library's own empty Confirmable ("ping") takes the NSTART slot of a silent session;
+    the peer answers it with a RST (the pong), an ACK, late, or not at all; THEN the application submits Confirmables, which must
+    be transmitted (at once or when the ping is concluded) and end in one outcome.  Half of the lines are the c08 generator's."""
+    if rng.random() < 0.5:
+        return L.gen_scenario_x(rng, "ka")
+    p = rng.choice(L.PARAM_SETS)
+    K = rng.randint(1, max(1, p[0]))
+    nstart = rng.choice([1, 1, 1, 2])
+    pong = rng.choice(["r0", "r1", "r50", "r400", "a50", "a1", "d", "R50+60", "r%d" % (K * 1000)])
+    fates = [pong] + [rng.choice(["a50", "a1", "d", "r50", "a400"]) for _ in range(rng.randint(0, 6))]
+    evs = ["k:%d" % K, "t:%d" % rng.choice([K * 1000, K * 1000, K * 1000 + 1, 2 * K * 1000])]
+    evs += rng.choice([[], ["t:%d" % rng.choice([0, 1, 50, 51, 400, 1000])], ["n"], ["g:2"]])
+    mid = rng.choice([100, 30000, 65000])
+    for j in range(rng.randint(1, 3)):
+        evs.append("s:0:c:%d:%d" % (mid + j, rng.randrange(256)))
+        if rng.random() < 0.4:
+            evs.append(rng.choice(["n", "t:%d" % rng.choice([1, 50, 400, K * 1000]), "g:2"]))
+    if rng.random() < 0.3:
+        evs.append("k:0")
+    evs.append("g:%d" % rng.choice([10, 25, 40]))
+    return "msg %s %s %s" % (L.sess_word(p, nstart), ",".join(fates), " ".join(evs))
+
+
 def gen_icmp(rng, wf=False):
     """a random scenario of the c06 flavour (optionally with failing socket writes, fate `x`) in which ICMP errors are read from
     the sockets: right after a coap_send(), after a time step, between two punctual I/O steps (g:K), at the very end"""
@@ -476,6 +500,7 @@ def generate(ctx, escalate=False):
     out += [gen_q(rng) for _ in range(n // 3)]
     out += exhaustive_icmp(ctx, L.PARAM_SETS[:4] if th else [L.PARAM_SETS[0], L.PARAM_SETS[1]])
     out += [gen_icmp(rng, wf=(k % 3 == 2)) for k in range(n // 3)]
+    out += [gen_ka(rng) for _ in range(n // 4)]
     out += [gen_obsw(rng) for _ in range(n // 4)] + [gen_obsw_borrowed(rng) for _ in range(n // 12)]
     out += [gen_sq(rng) for _ in range(n)]
     out += [gen_tmo(rng) for _ in range(n)]
@@ -585,6 +610,7 @@ def search(ctx, tie_breaks, proof):
     out += [gen_wf(rng) for _ in range(1500)]
     out += [gen_q(rng) for _ in range(1500)]
     out += [gen_icmp(rng, wf=(k % 3 == 2)) for k in range(1500)]
+    out += [gen_ka(rng) for _ in range(1000)]
     out += [gen_obsw(rng) for _ in range(1000)]
     return out
 
